@@ -332,3 +332,48 @@ func zxC03FlushModes() {
 	vrtAssert(vrtFloatEq(got["x"], va+vb) && got["y"] == 7 && got["z"] == 9, "every key keeps its value ("+mode+")")
 	vrtReach("C03.W")
 }
+
+// C18.M — the memstore copy that rowStore.iterate takes at the start of a scan is a snapshot:
+// whatever is inserted into the live memstore afterwards (into an existing key, a new key, an
+// empty memstore) shows in none of the rows the scan delivers from that copy.
+//
+//zx:harness prop=C18 id=C18.M tier=quick mode=real env=fs
+func zxC18MemstoreCopy() {
+	zxFSReset()
+	fields := core.Fields{core.PointsField, zxFieldA}
+	_, rs := zxTable(fields)
+	npre := vrtShape("npre", 3)
+	v1, v2, v3 := vrtFloat64("v1"), vrtFloat64("v2"), vrtFloat64("v3")
+	vrtAssume(vrtAnd(vrtFinite(v1), vrtAnd(vrtFinite(v2), vrtFinite(v3))))
+	want := map[string]float64{}
+	if npre >= 1 {
+		zxInsert(rs, rs.memStore, "x", zxNow, map[string]float64{"a": v1}, 0, 10)
+		want["x"] = v1
+	}
+	if npre >= 2 {
+		zxInsert(rs, rs.memStore, "y", zxNow, map[string]float64{"a": v2}, 0, 20)
+		want["y"] = v2
+	}
+	cp := rs.memStore.copy()
+	laterKey := []string{"x", "y", "z"}[vrtShape("laterKey", 3)]
+	laterTS := zxNow.Add(-time.Duration(vrtShape("laterAge", 2)) * time.Second)
+	zxInsert(rs, rs.memStore, laterKey, laterTS, map[string]float64{"a": v3}, 0, 30)
+	rows, offs, err := zxScan(rs, nil, cp, -1, -1)
+	vrtAssert(err == nil, "the scan of the snapshot succeeds")
+	vrtAssert(len(rows) == len(want), "the snapshot holds exactly the rows present when it was taken ("+zxItoa(npre)+")")
+	for _, r := range rows {
+		w, ok := want[r.key]
+		vrtAssert(ok, "the snapshot has no row for a key inserted later")
+		n := r.cols[1].NumPeriods(zxFieldA.Expr.EncodedWidth())
+		vrtAssert(n == 1, "a snapshot row has exactly the periods it had")
+		got, set := zxVal(r.cols[1], zxFieldA)
+		vrtAssert(set && vrtFloatEq(got, w), "a snapshot row keeps the value it had when the scan started")
+		pts, _ := zxVal(r.cols[0], core.PointsField)
+		vrtAssert(pts == 1, "a snapshot row keeps its _points")
+	}
+	if npre > 0 {
+		want := int64(10 * npre)
+		vrtAssert(offs[0] != nil && offs[0].Position() == want, "the scan reports the WAL offset of the snapshot, not of a later insert")
+	}
+	vrtReach("C18.M")
+}
